@@ -163,11 +163,14 @@ pub fn reopen_dump(bytes: &[u8], strict: bool, dict: &Dict) -> Value {
     let cur = std::io::Cursor::new(bytes.to_vec());
     let r = std::panic::catch_unwind(std::panic::AssertUnwindSafe(|| {
         // every spelling of "open strictly" / "open permissively" the API offers, in turn: they must mean the same
-        static SPELLING: std::sync::atomic::AtomicUsize = std::sync::atomic::AtomicUsize::new(0);
-        let k = SPELLING.fetch_add(1, std::sync::atomic::Ordering::Relaxed);
-        // every tenth time through a real file opened by path (read-only and read-write constructors, with the same options)
-        if k % 10 == 9 && bytes.len() <= 1 << 20 {
-            if let Some(r) = open_by_path(bytes, strict, (k / 10) % 2 == 0, k) {
+        // (one counter per mode: the two modes are dumped alternately, a common counter would give each mode only every
+        // other spelling)
+        static SPELLING_S: std::sync::atomic::AtomicUsize = std::sync::atomic::AtomicUsize::new(0);
+        static SPELLING_P: std::sync::atomic::AtomicUsize = std::sync::atomic::AtomicUsize::new(0);
+        let k = if strict { &SPELLING_S } else { &SPELLING_P }.fetch_add(1, std::sync::atomic::Ordering::Relaxed);
+        // every fifth time through a real file opened by path (read-only and read-write constructors, with the same options)
+        if k % 5 == 4 && bytes.len() <= 1 << 20 {
+            if let Some(r) = open_by_path(bytes, strict, (k / 5) % 2 == 0, k) {
                 return dump_of(r, dict);
             }
         }
